@@ -80,7 +80,12 @@ func (s *omSUT) RandomStimulus(r *rand.Rand) core.Ev {
 		return core.Ev{"op": "Has", "k": k}
 	case 10:
 		return core.Ev{"op": core.Pick(r, "Size", "IsEmpty", "Head", "Tail")}
-	case 11, 12:
+	case 11:
+		if r.Intn(2) == 0 {
+			return core.Ev{"op": "ForEachMut", "fwd": r.Intn(2) == 0, "at": 1 + r.Intn(omKeys), "mut": "del", "k": k, "v": 0}
+		}
+		return core.Ev{"op": "ForEachMut", "fwd": r.Intn(2) == 0, "at": 1 + r.Intn(omKeys), "mut": "set", "k": k, "v": v}
+	case 12:
 		return core.Ev{"op": "ForEach", "n": r.Intn(omKeys + 1)}
 	case 13, 14:
 		return core.Ev{"op": "ForEachReverse", "n": r.Intn(omKeys + 1)}
@@ -187,6 +192,26 @@ func (o *om[K]) apply(e core.Ev) any {
 		return core.Ev{"seq": seq, "done": done}
 	case "ForEachReverse":
 		seq, done := o.iterate(o.m.ForEachReverse, core.Int(e, "n"))
+		return core.Ev{"seq": seq, "done": done}
+	case "ForEachMut":
+		// an iteration whose consumer changes the map at its at-th call
+		it := o.m.ForEach
+		if !core.Bool(e, "fwd") {
+			it = o.m.ForEachReverse
+		}
+		seq, calls := []any{}, 0
+		done := it(func(k K, v uint16) bool {
+			seq = append(seq, o.pair(k, v))
+			calls++
+			if calls == core.Int(e, "at") {
+				if core.Str(e, "mut") == "del" {
+					o.m.Delete(o.key(core.Int(e, "k")))
+				} else {
+					o.m.Set(o.key(core.Int(e, "k")), uint16(core.Int(e, "v")))
+				}
+			}
+			return calls < 64 // (a walk that does not end is cut off)
+		})
 		return core.Ev{"seq": seq, "done": done}
 	case "Clear":
 		o.m.Clear()
